@@ -381,9 +381,14 @@ def gen_config(rng, prop, tier):
         break
     else:
         km = {'kind': 'hash', 'arg': 'md5', 'flat': True, 'typed': False, 'sentinel': fn in VARIADIC}
+    backend = B.config(label, B.odd_name(rng, label, 'm0')) if label else None
+    if label and (label.startswith('dir') or label == 'sql-file') and prop in ('C01', 'C02', 'C07') and rng.chance(0.12):
+        # the archive is named relative to the working directory it is opened in, and the process changes
+        # directory while the decorated function lives on (directory and sqlite archives are bound when opened)
+        backend['rel'] = True
     cfg = {'module': module, 'algo': algo, 'maxsize': maxsize, 'maxsize_pos': maxsize_pos,
            'purge': purge, 'keymap': km, 'fn': fn,
-           'backend': B.config(label, B.odd_name(rng, label, 'm0')) if label else None, 'direct': direct,
+           'backend': backend, 'direct': direct,
            'ignore': None, 'tol': None, 'deep': False, 'wide': wide,
            'bigres': label in ('dir-z', 'dir-fast', 'dir-mmap', 'dir-pkl', 'file-pkl', 'sql-file') and not wide
            and rng.chance(0.12)}
@@ -524,15 +529,15 @@ BAD_ARGS = [[1, 2], {'$d': [['a', 1]]}, {'$s': [1, 2]}, {'$o': 'badrepr'}, {'$o'
             [[1], {'$o': 'unpicklable'}], {'$deep': 3000}, {'$d': [[1, 2.5]]}, [{'$d': [[{'$t': [0, 1]}, 4.0]]}]]
 
 OPMIX = {
-    'C01': [(60, 'call'), (2, 'sibling_call'), (5, 'peer_call'), (4, 'load'), (3, 'load_k'), (4, 'dump'), (2, 'dump_k'), (3, 'clear'),
+    'C01': [(60, 'call'), (4, 'chdir'), (2, 'sibling_call'), (5, 'peer_call'), (4, 'load'), (3, 'load_k'), (4, 'dump'), (2, 'dump_k'), (3, 'clear'),
             (1, 'clear_keep'), (3, 'off'), (3, 'on'), (2, 'swap'), (4, 'restart'), (3, 'restart_dump'),
             (3, 'advance')],
-    'C02': [(60, 'call'), (2, 'sibling_call'), (6, 'peer_call'), (3, 'load'), (2, 'load_k'), (5, 'dump'), (2, 'dump_k'), (2, 'clear'),
+    'C02': [(60, 'call'), (4, 'chdir'), (2, 'sibling_call'), (6, 'peer_call'), (3, 'load'), (2, 'load_k'), (5, 'dump'), (2, 'dump_k'), (2, 'clear'),
             (2, 'off'), (2, 'on'), (3, 'restart'), (6, 'restart_dump'), (2, 'advance')],
     'C05': [(55, 'call'), (10, 'load'), (3, 'load_k'), (4, 'dump'), (3, 'clear'), (3, 'off'), (3, 'on'),
             (2, 'swap'), (3, 'restart'), (3, 'restart_dump'), (2, 'clone')],
     'C06': [(100, 'call'), (6, 'rcall')],
-    'C07': [(70, 'call'), (4, 'peer_call'), (3, 'load'), (3, 'load_k'), (4, 'dump'), (2, 'dump_k'), (2, 'clear'),
+    'C07': [(70, 'call'), (4, 'chdir'), (4, 'peer_call'), (3, 'load'), (3, 'load_k'), (4, 'dump'), (2, 'dump_k'), (2, 'clear'),
             (2, 'off'), (3, 'on'), (2, 'restart_dump'), (1, 'swap')],
     'C15': [(60, 'call'), (3, 'codeco_call'), (3, 'peer_call'), (4, 'load'), (2, 'load_k'), (4, 'dump'), (2, 'dump_k'), (4, 'clear'),
             (3, 'clear_keep'), (3, 'off'), (3, 'on'), (2, 'swap'), (3, 'restart'), (3, 'restart_dump'),
@@ -582,6 +587,8 @@ def generate(rng, prop, tier):
         mix = [(w, k) for (w, k) in mix if k != 'peer_call']
     if fn not in DEFAULTS:
         mix = [(w, k) for (w, k) in mix if k != 'sibling_call']
+    if not (cfg['backend'] and cfg['backend'].get('rel')):
+        mix = [(w, k) for (w, k) in mix if k != 'chdir']
     if fn == 'r1':
         mix = [(w, k) for (w, k) in mix if k not in ('bad', 'rcall', 'peer_call', 'clone', 'codeco_call')]
     n = rng.randint(5, 60)
@@ -716,11 +723,23 @@ class World(object):
         self.build(first=True)
 
     # -- construction -----------------------------------------------------
+    def at_home(self, fn):
+        """archives named relative to the cwd are always OPENED from this world's directory"""
+        b = self.cfg['backend']
+        if not (b and b.get('rel')):
+            return fn()
+        cwd = os.getcwd()
+        os.chdir(self.root)
+        try:
+            return fn()
+        finally:
+            os.chdir(cwd)
+
     def make_cache(self):
         b = self.cfg['backend']
         if b is None:
             return None
-        return B.make(b, self.root, cached=not self.cfg['direct'])
+        return self.at_home(lambda: B.make(b, self.root, cached=not self.cfg['direct']))
 
     def build(self, first=False):
         import klepto
@@ -1257,6 +1276,12 @@ def run_world(case, prop, root, name, skip, fs, clock, probes, faults, log):
             after = w.observe()
             if prop in ('C15', 'C05') and w.eff_algo != 'no' and len(after['mem']) != 0 and not after['direct']:
                 raise Mismatch('clear', 'clear() left %d entries resident' % len(after['mem']))
+        elif kind == 'chdir':
+            if cfg['backend'] is not None and cfg['backend'].get('rel'):
+                away = os.path.join(w.root, 'elsewhere')
+                os.makedirs(away, exist_ok=True)
+                os.chdir(w.root if os.path.realpath(os.getcwd()) == os.path.realpath(away) else away)
+                bump(faults, 'chdir')
         elif kind == 'off':
             if before['on']:
                 f.archived(False)
@@ -1271,7 +1296,7 @@ def run_world(case, prop, root, name, skip, fs, clock, probes, faults, log):
             if cfg['backend'] is not None and not cfg['direct'] and cfg['backend']['label'] != 'sql-mem':
                 w.swapped += 1
                 b2 = dict(cfg['backend'], name='m%d' % w.swapped)
-                f.archive(B.make(b2, w.root, cached=False))
+                f.archive(w.at_home(lambda: B.make(b2, w.root, cached=False)))
                 bump(faults, 'archive-swapped')
         elif kind in ('restart', 'restart_dump'):
             if kind == 'restart_dump':
